@@ -8,6 +8,7 @@ import OpmVerif.Proofs.SumFunsTable
 import Mathlib.Tactic.Ring
 import Mathlib.Tactic.Linarith
 import Mathlib.Algebra.Order.Field.Basic
+import Mathlib.Algebra.BigOperators.Group.List.Basic
 
 set_option linter.unusedSectionVars false
 set_option linter.unusedSimpArgs false
@@ -826,5 +827,49 @@ theorem voidage_value (c : Ctx K) :
     unfold lookupFun; rw [Table.lookupK_eq]; decide +kernel
   intro x hx
   rw [h x hx]; simp [evalE]
+
+
+/-! ## the visiting order of the wells is irrelevant -/
+
+theorem insertBySeq_perm (w : WellIn K) (l : List (WellIn K)) : (insertBySeq w l).Perm (w :: l) := by
+  induction l with
+  | nil => exact List.Perm.refl _
+  | cons x xs ih =>
+    unfold insertBySeq
+    split
+    · exact List.Perm.refl _
+    · exact (List.Perm.cons x ih).trans (List.Perm.swap w x xs)
+
+theorem sortBySeq_perm (l : List (WellIn K)) : (sortBySeq l).Perm l := by
+  unfold sortBySeq
+  induction l with
+  | nil => exact List.Perm.refl _
+  | cons x xs ih =>
+    simp only [List.foldr_cons]
+    exact (insertBySeq_perm x _).trans (List.Perm.cons x ih)
+
+/-- Over a field any permutation of the well list gives the same rate
+(`sort_wells_by_insert_index` only fixes the floating-point summation order). -/
+theorem evalRate_perm (p : Rt) (inj : Bool) (c : Ctx K) (ws : List (WellIn K)) (h : ws.Perm c.wells) :
+    evalRate p inj { c with wells := ws } = evalRate p inj c := by
+  rw [evalRate_eq, evalRate_eq]
+  simp only
+  rw [(h.map (contrib p inj c.efac)).sum_eq]
+
+theorem evalRate_sorted (p : Rt) (inj : Bool) (c : Ctx K) :
+    evalRate p inj { c with wells := sortBySeq c.wells } = evalRate p inj c :=
+  evalRate_perm p inj c _ (sortBySeq_perm c.wells)
+
+
+/-! ## calendar -/
+
+/-- The date function is periodic with the 400-year Gregorian era (146 097 days). -/
+theorem civilFromDays_era_shift (z : Int) : civilFromDays (z + 146097) =
+    ((civilFromDays z).1 + 400, (civilFromDays z).2.1, (civilFromDays z).2.2) := by
+  have h1 : (z + 146097 + 719468) / 146097 = (z + 719468) / 146097 + 1 := by omega
+  have h2 : z + 146097 + 719468 - ((z + 719468) / 146097 + 1) * 146097 =
+      z + 719468 - (z + 719468) / 146097 * 146097 := by omega
+  simp only [civilFromDays, h1, h2]
+  split <;> simp <;> omega
 
 end OpmVerif.SumFuns.Proofs
